@@ -36,11 +36,18 @@ pub struct PeerShape {
     pub recent_active: bool,
     /// Snapshot state: pending_snapshot = base + off
     pub pending_snapshot_off: u64,
+    /// Snapshot state: the outstanding snapshot is one the follower asked for
+    /// (pending_request_snapshot = pending_snapshot); concrete: it decides what is sent next
+    pub requested: bool,
 }
 
 impl PeerShape {
     pub const fn pending_snapshot(mut self, off: u64) -> PeerShape {
         self.pending_snapshot_off = off;
+        self
+    }
+    pub const fn requested(mut self) -> PeerShape {
+        self.requested = true;
         self
     }
     pub const fn paused(mut self) -> PeerShape {
@@ -52,13 +59,13 @@ impl PeerShape {
         self
     }
     pub const fn probe(id: u64, next_off: u64) -> PeerShape {
-        PeerShape { id, state: ProgressState::Probe, next_off, inflight: 0, matched_off: None, matched_abs: None, paused: false, recent_active: true, pending_snapshot_off: 1 }
+        PeerShape { id, state: ProgressState::Probe, next_off, inflight: 0, matched_off: None, matched_abs: None, paused: false, recent_active: true, pending_snapshot_off: 1, requested: false }
     }
     pub const fn replicate(id: u64, next_off: u64, inflight: usize) -> PeerShape {
-        PeerShape { id, state: ProgressState::Replicate, next_off, inflight, matched_off: None, matched_abs: None, paused: false, recent_active: true, pending_snapshot_off: 1 }
+        PeerShape { id, state: ProgressState::Replicate, next_off, inflight, matched_off: None, matched_abs: None, paused: false, recent_active: true, pending_snapshot_off: 1, requested: false }
     }
     pub const fn snapshot(id: u64, next_off: u64) -> PeerShape {
-        PeerShape { id, state: ProgressState::Snapshot, next_off, inflight: 0, matched_off: None, matched_abs: None, paused: false, recent_active: true, pending_snapshot_off: 1 }
+        PeerShape { id, state: ProgressState::Snapshot, next_off, inflight: 0, matched_off: None, matched_abs: None, paused: false, recent_active: true, pending_snapshot_off: 1, requested: false }
     }
     pub const fn matched(mut self, off: u64) -> PeerShape {
         self.matched_off = Some(off);
@@ -598,8 +605,7 @@ fn leader_progress(s: &mut Src, sh: &Shape, r: &mut Raft<VStore>, g: &Ghost) {
                 ProgressState::Snapshot => {
                     pr.pending_snapshot = sh.base + ps.pending_snapshot_off;
                     assert!(pr.pending_snapshot >= 1 && pr.pending_snapshot <= last, "shape: pending_snapshot");
-                    // the outstanding snapshot may be one the follower asked for
-                    if s.bool() {
+                    if ps.requested {
                         pr.pending_request_snapshot = pr.pending_snapshot;
                     }
                 }
